@@ -291,9 +291,18 @@ def retrieve_initial_concentration(
         # unless mixed with general decays
         return
 
+    initial_concentration = dict(
+        zip(
+            dataset_model.initial_concentration.compartments,
+            dataset_model.initial_concentration.parameters,
+        )
+    )
     dataset["initial_concentration"] = (
         (species_dimension,),
-        dataset_model.initial_concentration.parameters,
+        [
+            float(initial_concentration.get(species, np.nan))
+            for species in dataset.coords[species_dimension].values
+        ],
     )
 
 
